@@ -98,6 +98,33 @@ pub fn check_family(env: &Env, p: Prof, fam: &[String], rec: &mut Rec) {
         }
         m.push(row);
     }
+    // second pass in pair-major order with the other profiles called in between on the same operands: every
+    // result must equal the first evaluation (a memo shared between profiles or keyed too coarsely shows here)
+    for i in 0..n {
+        for j in 0..n {
+            if (i * 7 + j * 3) % 4 != 0 {
+                continue;
+            }
+            for q in ALL_PROF {
+                if q != p {
+                    let _ = api::s_compare(q, &fam[i], &fam[j]);
+                }
+                let again = if (i + j) % 2 == 0 { api::compare(p, &fam[i], &fam[j]) } else { api::s_compare(p, &fam[i], &fam[j]) };
+                rec.eval();
+                if again != m[i][j] {
+                    rec.violation(
+                        "compare-result-changes-with-call-history",
+                        Witness {
+                            op: format!("{}::compare after {}::compare on the same operands", p.name(), q.name()),
+                            case: format!("profile={};a={};b={}", p.name(), util::esc(&fam[i]).replace(';', "\\u{3B}"), util::esc(&fam[j])),
+                            expected: api::show(&m[i][j]),
+                            observed: api::show(&again),
+                        },
+                    );
+                }
+            }
+        }
+    }
     // relational monitors over the recorded matrix
     let case2 = |i: usize, j: usize| format!("profile={};a={};b={}", p.name(), util::esc(&fam[i]).replace(';', "\\u{3B}"), util::esc(&fam[j]));
     for i in 0..n {
@@ -155,12 +182,30 @@ fn family(env: &Env, rng: &mut Rng, j: usize) -> Vec<String> {
         }
     };
     let n = rng.range(4, 10);
-    env.var().family(p, rng, &seed, n)
+    let mut f = env.var().family(p, rng, &seed, n);
+    if j % 16 == 5 {
+        // length extensions: pairs where one operand is a prefix of the other and the byte lengths differ by
+        // exactly 1 / 255 / 256 / 257 / 512 (and 256 bytes in 64 four-byte characters)
+        let base: String = f[0].chars().take(12).collect();
+        f.truncate(3);
+        f.push(base.clone());
+        f.extend(super::hostile::extensions(&base, j % 320 == 5));
+    } else if j % 16 == 9 {
+        // long members with the differing character at a power-of-two byte offset
+        let a = super::hostile::around_boundary(rng, &f[0].chars().take(4).collect::<String>(), &f[1].chars().take(4).collect::<String>(), 1024);
+        if let Some(b) = super::hostile::same_length_variant(rng, &a) {
+            f.truncate(4);
+            f.push(env.var().variant(p, rng, &a));
+            f.push(a);
+            f.push(b);
+        }
+    }
+    f
 }
 
 pub fn run(env: &Env) -> Rec {
     let mut rec = Rec::new();
-    let n = env.n(6_000, 300_000);
+    let n = env.n(30_000, 1_500_000);
     let per = 50usize;
     let r = par(n.div_ceil(per), |c, rec| {
         let mut rng = Rng::stream(env.seed, 0x07_0000 + c as u64);
